@@ -7,8 +7,8 @@
 (*   - what was sent well before the end has been processed; reads and writes after Close fail.                                        *)
 EXTENDS Integers, Sequences, FiniteSets, TLC, Json, IOUtils
 Trace == ndJsonDeserialize(IOEnv.VERIF_TRACE)
-CloseBound == 600000        \* 100 ms poll timeout + scheduling slack (microseconds)
-EndBound == 1500000
+CloseBound == 2500000       \* "bounded": far above any sensible poll timeout (the code's is 100 ms), far below a hang (microseconds)
+EndBound == 4000000
 Settle == 150000
 VARIABLES l, attached, after, sentT, procd, lastProc, stopT, closeT, closed, ended, tail
 vars == <<l, attached, after, sentT, procd, lastProc, stopT, closeT, closed, ended, tail>>
